@@ -618,9 +618,21 @@ def lin_stress(ctx, binp):
             ctx.log("linstress run %d timed out (skipped)" % k)
             continue
         if p.returncode != 0 or not os.path.exists(hf):
-            # the process that hosts the real nodes died (a panic of the code under test, or of the driver)
-            raise vf.Inconclusive("linstress run %d ended with exit %d: %s" % (k, p.returncode, p.stderr[-600:]))
+            # the process that hosts the three real nodes died
+            if "handleReplicateSync" in p.stderr and os.path.exists(hf):
+                # known defect of the unchanged code, outside the listed properties (DESIGN 10.5): a follower's
+                # sync goroutine reads fc.wal after Close() set it to nil and the node process panics. For the
+                # properties this is a node crash; the episodes completed before it are still judged.
+                ctx.log("linstress run %d: node process panic in handleReplicateSync after close (known, not judged); "
+                        "the episodes recorded before it are validated" % k)
+                ctx.notes["node_panics_handleReplicateSync"] = ctx.notes.get("node_panics_handleReplicateSync", 0) + 1
+            else:
+                raise vf.Inconclusive("linstress run %d ended with exit %d: %s" % (k, p.returncode, p.stderr[-600:]))
         lines = open(hf).read().splitlines()
+        if p.returncode != 0:
+            # the episode that was being written when the process died may be incomplete: dropped
+            resets = [j for j, x in enumerate(lines) if '"reset"' in x]
+            lines = lines[:resets[-1]] if resets else []
         while lines:
             tp = os.path.join(ctx.scratch, "linstress-part.ndjson")
             open(tp, "w").write("\n".join(lines) + "\n")
